@@ -306,7 +306,7 @@ func (x *Exec) runBody(recv *ast.FieldList, ftype *ast.FuncType, body *ast.Block
 			x.checkExits(c, o, "panic")
 			continue
 		case outBreak, outContinue:
-			if o.label == "" && (strings.HasPrefix(c.LitSel, "case:") || strings.HasPrefix(c.LitSel, "if:")) && (o.out == outBreak || strings.HasPrefix(c.LitSel, "if:")) {
+			if o.label == "" && (strings.HasPrefix(c.LitSel, "case:") || strings.HasPrefix(c.LitSel, "if:") || strings.HasPrefix(c.LitSel, "for:")) && (o.out == outBreak || !strings.HasPrefix(c.LitSel, "case:")) {
 				o.out = outNormal // break out of the switch whose clause is the unit
 				break
 			}
